@@ -196,6 +196,10 @@ def check_property(prop, tier, a):
                     lvl = "undecided (solver unknown)"
         fn_levels[fn] = lvl
     for lr in lemma_results:
+        for s_ in lr.get("assumptions", []):
+            assumptions.add(s_)
+        for f_ in lr.get("functions", []):
+            fn_levels.setdefault(f_, "frame-checked (call graph)")
         obligations += 1
         by_backend[lr["backend"]] = by_backend.get(lr["backend"], 0) + 1
         solver_time += lr["time"]
@@ -262,7 +266,11 @@ def check_property(prop, tier, a):
                    "observed": fl[0]["observed"], "expected": fl[0]["expected"],
                    "rerun": f"python3-vt check.py --replay {path}"}, open(path, "w"), indent=1, default=str)
         violations.append((path, False, f"native harness: {cls}: {fl[0]['observed'][:200]}"))
+    seen_keys = set()
     for fn, ob, key in refuted:
+        if key in seen_keys:
+            continue
+        seen_keys.add(key)
         if key in kf_oblig:
             known_lines.append(f"KNOWN-FINDING: property={prop} obligation {key} refuted (listed)")
             continue
